@@ -78,7 +78,11 @@ def rule_clean(ctx):
             adt = T[b.raw["self_ty"]].get("adt")
             if adt is None or not adt.startswith(ctx.facts.crate + "::"):
                 continue
-            for p2 in ctx.reachable_bodies(b.path):
+            # what the destructor can reach: its own callees, and — when it polls itself through a generic helper (`drop_remaining(self)` with
+            # `fn drop_remaining<I: Iterator>(it: &mut I)`) — the type's own Iterator::next
+            starts = [b.path] + [b3.path for b3 in ctx.facts.bodies.values() if b3.name == "next" and b3.raw.get("trait") == "core::iter::Iterator"
+                                 and "self_ty" in b3.raw and T[b3.raw["self_ty"]].get("adt") == adt]
+            for p2 in {q for s0 in starts for q in ctx.reachable_bodies(s0)}:
                 b2 = ctx.facts.bodies.get(p2)
                 if b2 is not None and any(c.unresolved and c.name in ("core::ops::FnMut::call_mut", "core::ops::Fn::call", "core::ops::FnOnce::call_once")
                                           for c in ctx.calls(b2)):
